@@ -14,7 +14,7 @@
    writes to them) is checked on the implementation only: the model's maps are
    immutable values. *)
 From Coq Require Import ZArith List Bool Permutation.
-From Tally Require Import Base.Obs Model.KeyGen Model.Deriv Proof.KeyGenP Proof.DerivP.
+From Tally Require Import Base.ObsCore Model.KeyGen Model.Deriv Proof.KeyGenP Proof.DerivP.
 Import ListNotations.
 Open Scope Z_scope.
 
